@@ -3,7 +3,7 @@
 (* one action per critical section.                                                                *)
 (*                                                                                                  *)
 (* The scanning thread ("main") first adds every transaction of every block of the range          *)
-(* (add_outputs: one unbounded channel per transaction, its receiver registered under             *)
+(* (add_outputs: one unbounded channel per transaction and pool, its receiver registered under    *)
 (* (block, txid), one sender clone per output placed in the accumulating batch; the batch is       *)
 (* flushed to the worker pool when it holds >= Threshold outputs), flushes once more, and then    *)
 (* collects the transactions in the same order (collect_results: blocks until every sender of that *)
@@ -11,27 +11,33 @@
 (* flushed batches in FIFO order and, output by output, send the decryptable ones; the senders of  *)
 (* a batch are gone when the batch has finished.                                                   *)
 (*                                                                                                  *)
-(* Workload: a sequence of transactions [b |-> block, id |-> txid, outs |-> Seq(BOOLEAN)]          *)
-(* (TRUE: the output decrypts under one of the keys).  Keys (b, id) are distinct; txids may repeat  *)
-(* across blocks.                                                                                  *)
+(* Workload: a sequence of add_outputs calls [r |-> runner, b |-> block, id |-> txid,               *)
+(* outs |-> Seq(BOOLEAN)] (TRUE: the output decrypts under one of the keys).  There is one runner  *)
+(* per shielded pool (BatchRunners: Sapling, Orchard, Ironwood), each with its own accumulating    *)
+(* batch and its own receiver map; all of them hand their batches to the same pool.  A transaction *)
+(* (b, id) makes one call per runner, in runner order, so its outputs can sit in several batches - *)
+(* one per pool -, while the outputs a transaction has in ONE pool are always added to one batch   *)
+(* (the threshold is tested after the whole call).  Keys (r, b, id) are distinct; txids may repeat *)
+(* across blocks.  With Runners = 1 a call is simply a transaction.                                *)
 EXTENDS Integers, Sequences, FiniteSets, TLC
 
 CONSTANTS MaxTxs,        \* workloads have at most this many transactions
           MaxOuts,       \* each with at most this many outputs
           MaxThreshold,  \* thresholds 1..MaxThreshold
           MaxWorkers,    \* pools of 1..MaxWorkers workers
+          Runners,       \* batch runners (one per shielded pool): 1..Runners
           FinalFlush,    \* safeguard: the explicit flush after the last add          (scan_cached_blocks)
           KeyWithBlock   \* safeguard: receivers are keyed by (block, txid), not txid (ResultKey)
 
 VARIABLES wl,        \* the workload (chosen initially, then constant)
           thr, nw,   \* threshold and pool size (chosen initially)
-          pc,        \* main thread: << "add", k >>, << "flush" >>, << "collect", k >>, << "done" >>
-          acc,       \* accumulating batch: sequence of << k, i >> (output i of transaction k)
+          pc,        \* main thread: << "add", k >>, << "flush", r >>, << "collect", k >>, << "done" >>
+          acc,       \* [runner -> accumulating batch: sequence of << k, i >> (output i of call k)]
           queue,     \* flushed batches not yet taken by a worker (FIFO), each a sequence of << k, i >>
           running,   \* [worker -> [items, next]] or NoBatch
           chan,      \* [k -> sequence of output indices sent so far]
           senders,   \* [k -> number of live sender clones of transaction k's channel]
-          pending,   \* registered receivers: function from key to k
+          pending,   \* registered receivers (of all runners): function from key to k
           result     \* [k -> set collected] once collected, else NotYet
 
 vars == << wl, thr, nw, pc, acc, queue, running, chan, senders, pending, result >>
@@ -41,19 +47,25 @@ NotYet  == { -1 }
 
 SeqsUpTo(S, n) == UNION { [1..k -> S] : k \in 0..n }
 TxShapes == SeqsUpTo(BOOLEAN, MaxOuts)
+\* block by block, transaction by transaction, runner by runner (add_block)
+Before(x, y) == \/ x.b < y.b
+                \/ x.b = y.b /\ x.id < y.id
+                \/ x.b = y.b /\ x.id = y.id /\ x.r < y.r
+\* a well-formed workload: calls in the order add_block makes them (hence with distinct keys), ...
+WellFormed(w) ==
+    /\ \A i, j \in 1..Len(w) : i < j => Before(w[i], w[j])
+    \* ... symmetry reduction: ids are used in order within a block
+    /\ \A i \in 1..Len(w) : w[i].id = 2 => \E j \in 1..(i - 1) : w[j].b = w[i].b /\ w[j].id = 1
 \* transactions of up to two blocks; the same txid (1) may occur in both
 Workloads ==
-    { w \in SeqsUpTo([b : 1..2, id : 1..2, outs : TxShapes], MaxTxs) :
-        /\ \A i, j \in 1..Len(w) : i < j => (w[i].b <= w[j].b /\ << w[i].b, w[i].id >> # << w[j].b, w[j].id >>)
-        \* symmetry reduction: ids are used in order within a block
-        /\ \A i \in 1..Len(w) : w[i].id = 2 => \E j \in 1..(i - 1) : w[j].b = w[i].b /\ w[j].id = 1 }
+    { w \in SeqsUpTo([r : 1..Runners, b : 1..2, id : 1..2, outs : TxShapes], MaxTxs) : WellFormed(w) }
 
-Key(k) == IF KeyWithBlock THEN << wl[k].b, wl[k].id >> ELSE << wl[k].id >>
+Key(k) == IF KeyWithBlock THEN << wl[k].r, wl[k].b, wl[k].id >> ELSE << wl[k].r, wl[k].id >>
 
 Init ==
     /\ wl \in Workloads /\ thr \in 1..MaxThreshold /\ nw \in 1..MaxWorkers
     /\ pc = << "add", 1 >>
-    /\ acc = << >> /\ queue = << >>
+    /\ acc = [r \in 1..Runners |-> << >>] /\ queue = << >>
     /\ running = [w \in 1..MaxWorkers |-> NoBatch]
     /\ chan = [k \in 1..Len(wl) |-> << >>]
     /\ senders = [k \in 1..Len(wl) |-> 0]
@@ -64,27 +76,30 @@ Init ==
 Add ==
     /\ pc[1] = "add" /\ pc[2] <= Len(wl)
     /\ LET k == pc[2]
+           r == wl[k].r
            items == [i \in 1..Len(wl[k].outs) |-> << k, i >>]
-           acc2 == acc \o items
+           acc2 == acc[r] \o items
        IN  /\ senders' = [senders EXCEPT ![k] = Len(wl[k].outs)]
            /\ pending' = [x \in (DOMAIN pending) \cup { Key(k) } |-> IF x = Key(k) THEN k ELSE pending[x]]
            /\ IF Len(acc2) >= thr
-              THEN acc' = << >> /\ queue' = Append(queue, acc2)
-              ELSE acc' = acc2 /\ queue' = queue
-           /\ pc' = IF k = Len(wl) THEN << "flush" >> ELSE << "add", k + 1 >>
+              THEN acc' = [acc EXCEPT ![r] = << >>] /\ queue' = Append(queue, acc2)
+              ELSE acc' = [acc EXCEPT ![r] = acc2] /\ queue' = queue
+           /\ pc' = IF k = Len(wl) THEN << "flush", 1 >> ELSE << "add", k + 1 >>
     /\ UNCHANGED << wl, thr, nw, running, chan, result >>
 
 AddNone == \* empty workload
-    /\ pc[1] = "add" /\ pc[2] > Len(wl) /\ pc' = << "flush" >>
+    /\ pc[1] = "add" /\ pc[2] > Len(wl) /\ pc' = << "flush", 1 >>
     /\ UNCHANGED << wl, thr, nw, acc, queue, running, chan, senders, pending, result >>
 
-\* main: the explicit flush at the end of the range
+\* main: the explicit flush at the end of the range, runner by runner
 Flush ==
     /\ pc[1] = "flush"
-    /\ IF FinalFlush /\ acc # << >>
-       THEN acc' = << >> /\ queue' = Append(queue, acc)
-       ELSE UNCHANGED << acc, queue >>
-    /\ pc' = IF Len(wl) = 0 THEN << "done" >> ELSE << "collect", 1 >>
+    /\ LET r == pc[2] IN
+       /\ IF FinalFlush /\ acc[r] # << >>
+          THEN acc' = [acc EXCEPT ![r] = << >>] /\ queue' = Append(queue, acc[r])
+          ELSE UNCHANGED << acc, queue >>
+       /\ pc' = IF r < Runners THEN << "flush", r + 1 >>
+                ELSE IF Len(wl) = 0 THEN << "done" >> ELSE << "collect", 1 >>
     /\ UNCHANGED << wl, thr, nw, running, chan, senders, pending, result >>
 
 \* an idle worker takes the oldest flushed batch
